@@ -261,7 +261,15 @@ func (g *pkgGen) generate(pkgLevel bool) (src string, queries []query) {
 		// decoy: trailing comment on the line above an undocumented type (must not become its doc)
 		if len(t.doc.comment) == 0 && r.Intn(2) == 0 {
 			t.decoyTr = "decoy trailing comment " + fragments[r.Intn(len(fragments))]
-			fmt.Fprintf(&b, "var %s int // %s\n", g.fname("decoyVar"), t.decoyTr)
+			switch r.Intn(3) {
+			case 0:
+				fmt.Fprintf(&b, "var %s int // %s\n", g.fname("decoyVar"), t.decoyTr)
+			case 1:
+				// the comment trails the CLOSING line of a multi-line declaration
+				fmt.Fprintf(&b, "var %s = []int{\n\t1,\n} // %s\n", g.fname("decoyVar"), t.decoyTr)
+			case 2:
+				fmt.Fprintf(&b, "type %s struct {\n\ta int\n} // %s\n", g.fname("decoyType"), t.decoyTr)
+			}
 		} else {
 			t.doc.write(&b, "")
 		}
@@ -277,6 +285,7 @@ func (g *pkgGen) generate(pkgLevel bool) (src string, queries []query) {
 			prevTrailing := false
 			for j := 0; j < nf; j++ {
 				var f field
+				multiLine := false
 				switch r.Intn(9) {
 				case 0:
 					f.names = []string{g.fname("unexp")}
@@ -289,6 +298,10 @@ func (g *pkgGen) generate(pkgLevel bool) (src string, queries []query) {
 				case 2:
 					f.names = []string{g.fname("Anon")}
 					f.typ = "struct{ X int }"
+					if r.Intn(2) == 0 {
+						f.typ = "struct {\n\t\tX int\n\t}"
+						multiLine = true
+					}
 				case 3:
 					f.names = []string{g.fname("Empty")}
 					f.typ = "struct{}"
@@ -312,6 +325,11 @@ func (g *pkgGen) generate(pkgLevel bool) (src string, queries []query) {
 				default:
 					f.names = []string{g.fname("F")}
 					f.typ = []string{"int", "string", "[]byte", "map[string]int", "*int", "error", "any", "time.Time", "sync.Mutex", "c16opaque", "*c16opaque", "time.Duration", "c16nothing", "P"}[r.Intn(13)]
+					if r.Intn(8) == 0 {
+						// a field spanning several lines (a trailing comment then sits on its closing line)
+						f.typ = []string{"map[string]struct {\n\t\tX int\n\t}", "func(\n\t\ta int,\n\t) error", "[]struct {\n\t\tY string\n\t}"}[r.Intn(3)]
+						multiLine = true
+					}
 					if len(g.ts) > 0 && r.Intn(4) == 0 {
 						// a field whose type is (built from) an earlier type of the same package: by value, pointer, slice or
 						// map value; generic types instantiated with a basic type or with the enclosing type parameter
@@ -361,7 +379,7 @@ func (g *pkgGen) generate(pkgLevel bool) (src string, queries []query) {
 					f.doc.write(&b, "\t")
 					tr := ""
 					prevTrailing = false
-					if r.Intn(3) == 0 {
+					if r.Intn(3) == 0 || (multiLine && r.Intn(4) != 0) {
 						tr = " // trailing " + fragments[r.Intn(len(fragments))]
 						prevTrailing = true
 					}
